@@ -178,6 +178,142 @@ def _bitstrings():
     return BitStrings(evaluation_times=[1.0])
 
 
+# ------------------------------------------------------------------ real emu-sv trajectories share nothing
+def sv_family_case(sub: int):
+    """One real multi-trajectory emu-sv run (no stub): shot-to-shot amplitude noise (one SequenceData per
+    trajectory), optional Lindblad operators (density-matrix evolution), optional user initial state
+    (state vector / pure or MIXED density matrix). Returns a failure message or None, plus a description."""
+    import copy
+    import math
+    import random as _r
+    import torch
+    from harness import compat
+    compat.install()
+    from pulser.backend import Occupation
+    from pulser.backend.results import Results
+    import emu_sv.sv_backend as mod
+    from emu_sv import StateVector, DensityMatrix
+    rng = _r.Random(sub)
+    N = 2
+    nsteps, dt = rng.choice([2, 3, 5]), 10.0
+    ntraj = rng.choice([2, 3, 4])
+    noise = rng.choice(["none", "relax", "relax+deph", "relax", "relax+deph"])
+    init = rng.choice(["none", "pure", "mixed", "mixed"]) if noise != "none" else rng.choice(["none", "pure"])
+    ops = []
+    if "relax" in noise:
+        L = torch.zeros(2, 2, dtype=torch.complex128); L[0, 1] = math.sqrt(rng.uniform(0.1, 0.5)); ops.append(L)
+    if "deph" in noise:
+        c = math.sqrt(rng.uniform(0.1, 0.5) / 2)
+        L = torch.zeros(2, 2, dtype=torch.complex128); L[0, 0], L[1, 1] = c, -c; ops.append(L)
+    U = [[0.0, 3.0], [3.0, 0.0]]
+    T = [dt * i for i in range(nsteps + 1)]
+    amps = [6.0 * (1.0 + 0.1 * rng.gauss(0, 1)) for _ in range(ntraj)]
+
+    def sequences():
+        out = []
+        for a in amps:
+            om = [[a] * N for _ in range(nsteps)]
+            z = [[0.0] * N for _ in range(nsteps)]
+            out.append(compat.make_sequence_data(om, z, z, U, T, lindblad_ops=[o.clone() for o in ops]))
+        return out
+
+    g = torch.Generator().manual_seed(sub % (2 ** 31))
+    psi = torch.randn(4, generator=g, dtype=torch.float64) + 1j * torch.randn(4, generator=g, dtype=torch.float64)
+    psi = (psi / psi.norm()).to(torch.complex128)
+    if init == "none":
+        data0 = None
+    elif noise == "none":
+        data0 = psi
+    elif init == "pure":
+        data0 = torch.outer(psi, psi.conj())
+    else:
+        phi = torch.randn(4, generator=g, dtype=torch.float64).to(torch.complex128)
+        phi = phi / phi.norm()
+        w = rng.uniform(0.3, 0.7)
+        data0 = w * torch.outer(psi, psi.conj()) + (1 - w) * torch.outer(phi, phi.conj())
+
+    def config():
+        kw = {}
+        if data0 is not None:
+            kw["initial_state"] = (StateVector(data0.clone(), gpu=False) if noise == "none"
+                                   else DensityMatrix(data0.clone(), gpu=False))
+        return compat.sv_config(dt=dt, observables=[Occupation(evaluation_times=[0.0, 1.0])], **kw)
+
+    desc = dict(sv_family=sub, noise=noise, initial_state=init, n_trajectories=ntraj, nsteps=nsteps)
+    cfg = config()
+    seqs = sequences()
+    be = mod.SVBackend.__new__(mod.SVBackend)
+    be._config, be._sequence = cfg, object()
+    captured, snapshots = [], []
+    orig = mod.SVBackend._run_from_sequence_data
+
+    def spy(data, config_):
+        r = orig(data, config_)
+        captured.append(r)
+        if config_.initial_state is not None:
+            snapshots.append(config_.initial_state.data.clone())
+        return r
+
+    fake_pd = lambda **kw: types.SimpleNamespace(get_sequences=lambda: iter(seqs))   # noqa: E731
+    with mock.patch.object(mod, "PulserData", fake_pd), \
+            mock.patch.object(mod.SVBackend, "_run_from_sequence_data", staticmethod(spy)):
+        agg = be.run()
+    if len(captured) != ntraj:
+        return f"{len(captured)} trajectories simulated instead of {ntraj}", desc
+    # (1) the configured initial state is bit-identical after every trajectory
+    for k, snap in enumerate(snapshots):
+        if not torch.equal(snap, data0):
+            tr = float(torch.trace(snap).real) if snap.ndim == 2 else float(snap.norm())
+            return (f"config.initial_state was modified by trajectory {k} ({init} {'density matrix' if snap.ndim == 2 else 'state vector'}; "
+                    f"trace/norm now {tr:.6f}): later trajectories do not start from the configured state"), desc
+    # (2) every trajectory starts from the configured state: t = 0 occupations
+    def occ0(r):
+        return torch.as_tensor(r.get_result("occupation", 0.0)).real.to(torch.float64)
+    if data0 is None:
+        want0 = torch.zeros(N, dtype=torch.float64)
+    else:
+        p = (data0.abs() ** 2) if data0.ndim == 1 else torch.diagonal(data0).real
+        want0 = torch.stack([p[[b for b in range(4) if (b >> (N - 1 - q)) & 1]].sum() for q in range(N)]).to(torch.float64)
+    for k, r in enumerate(captured):
+        if not torch.allclose(occ0(r), want0, atol=1e-10, rtol=0) or not torch.allclose(occ0(r), occ0(captured[0]), atol=1e-10, rtol=0):
+            return (f"trajectory {k} starts with occupation {occ0(r).tolist()} at t=0; trajectory 0 / the configured "
+                    f"initial state give {occ0(captured[0]).tolist()} / {want0.tolist()}"), desc
+    # (3) each trajectory equals the same trajectory simulated on its own with a fresh config
+    for k, sd in enumerate(sequences()):
+        ref = orig(sd, config())
+        for t in (0.0, 1.0):
+            a = torch.as_tensor(captured[k].get_result("occupation", t)).real
+            b = torch.as_tensor(ref.get_result("occupation", t)).real
+            if not torch.allclose(a, b, atol=1e-9, rtol=0):
+                return (f"trajectory {k} inside the multi-trajectory run gives occupation {a.tolist()} at t={t}, "
+                        f"simulated on its own {b.tolist()}"), desc
+    # (4) the aggregate is the mean of the per-trajectory values
+    if agg is not captured[0] or ntraj == 1:
+        try:
+            for t in (0.0, 1.0):
+                a = torch.as_tensor(agg.get_result("occupation", t)).real.to(torch.float64)
+                m = torch.stack([torch.as_tensor(r.get_result("occupation", t)).real.to(torch.float64) for r in captured]).mean(0)
+                if not torch.allclose(a, m, atol=1e-12, rtol=0):
+                    return f"aggregated occupation {a.tolist()} at t={t} is not the mean {m.tolist()} of the trajectories", desc
+        except (KeyError, ValueError, AttributeError):
+            pass   # occupation skipped by the aggregation method in effect: nothing to compare
+    return None, desc
+
+
+def sv_family(rep: Report, rng, n: int) -> None:
+    for i in range(n):
+        sub = rng.randrange(2 ** 31)
+        try:
+            msg, desc = sv_family_case(sub)
+        except Exception as e:  # noqa: BLE001
+            rep.fail(f"real emu-sv multi-trajectory run raised {type(e).__name__}: {str(e)[:160]}", {"sv_family": sub})
+            continue
+        rep.hist("sv_family", f"{desc['noise']}/{desc['initial_state']}")
+        rep.case(key=("sv_family", sub), nontrivial=True, sample=desc)
+        if msg:
+            rep.fail("emu-sv: " + msg, desc)
+
+
 # ------------------------------------------------------------------ check
 def gen_reps(rng):
     mode = rng.choice(["small", "small", "ones", "wide", "edge"])
@@ -199,6 +335,8 @@ def check(rep: Report, tier: str, seed: int) -> None:
         "pulser-core: Results.aggregate MEAN == arithmetic mean over the handed list (validated vs a manual mean, 1e-12), "
         "BAG_UNION == Counter sum (validated exactly)",
         "each per-trajectory BitStrings counter holds `shots` samples (property C15; stubbed here)",
+        "hypothesis of handed_independent_if_state_preserved (no trajectory modifies the shared config / initial state): "
+        "checked on real emu-sv multi-trajectory runs (bit-identical initial state, t=0 observables, stand-alone re-runs)",
     ]
     lean_stage(rep, PROP_MODULE, AUDIT, thorough=(tier == "thorough"))
     rng = seeded(seed * 7919 + 34)
@@ -283,6 +421,7 @@ def check(rep: Report, tier: str, seed: int) -> None:
         rep.extra["correspondence_disagreements"] = dis
 
     real_pulser_contract(rep, rng, 6 if tier == "quick" else 60)
+    sv_family(rep, rng, 16 if tier == "quick" else 300)
 
     if rep.broken and not rep.failing:
         search(rep, seed, 400 if tier == "quick" else 5000)
@@ -410,7 +549,9 @@ def replay(rep: Report, path: str) -> int:
     for f in data.get("failing_inputs", []):
         d = f["data"]
         msg = None
-        if "reps" in d:
+        if "sv_family" in d:
+            msg, _ = sv_family_case(d["sv_family"])
+        elif "reps" in d:
             reps = d["reps"]
             idx, ok = real_expand(reps)
             want = [k for k, r in enumerate(reps) for _ in range(max(r, 0))]
